@@ -28,6 +28,7 @@ def main():
     ap.add_argument("--worker", default=None, help=argparse.SUPPRESS)
     ap.add_argument("--out", default=None, help=argparse.SUPPRESS)
     ap.add_argument("--quiet", action="store_true")
+    ap.add_argument("--digest-of", default=None, help=argparse.SUPPRESS)
     args = ap.parse_args()
     seed = args.seed
     if seed is None:
@@ -50,6 +51,8 @@ def main():
             wid, n = args.worker.split("/")
             runner.worker_main(args.property, args.tier, seed, int(wid), int(n), args.out)
             return 0
+        if args.digest_of is not None:
+            return runner.digest_main(args.property, args.digest_of)
         if args.replay is not None:
             return runner.replay_main(args.property, args.replay, quiet=args.quiet)
         return runner.parent_main(args.property, args.tier, seed)
